@@ -51,7 +51,7 @@ View == <<store, now, db, steps>>
 
 OpOf(a) == a[1].s
 
-ReadOps == {"GET", "MGET", "TTL", "PTTL", "EXPIRETIME", "PEXPIRETIME", "TYPE", "STRLEN", "GETRANGE", "SUBSTR"}
+ReadOps == {"GET", "MGET", "TTL", "PTTL", "EXPIRETIME", "PEXPIRETIME", "TYPE", "STRLEN", "GETRANGE", "SUBSTR", "RANDOMKEY", "TOUCH"}
 GlobalOps == {"FLUSHALL"}
 FlushOps == {"FLUSHDB", "FLUSHALL"}
 
